@@ -60,6 +60,20 @@ def catalog():
             "prog": {"setup": [build(man, count, True)],
                      "threads": [[sub("f0"), sub("f1"), sub("f2"), sub("f3")], [["sleep", 1.0], ["run", "ex", 0], ["sleep", 1.0], ["run", "ex", 1], ["sleep", 1.0], ["runall", "ex"]]],
                      "settle": 3, "final": [["runall", "ex"], ["sleep", 0.5], ["runall", "ex"], ["sleep", 0.5]]}}
+    # the hand-over thread is already iterating (woken by a submit) when a completion lands: completion thread LAST
+    for count in (1, 2):
+        out["T2b/submit-then-completion-count%d" % count] = {
+            "count": count,
+            "prog": {"setup": [build(man, count, False), sub("f0"), sub("f1"), sub("f2"), ["sleep", 0.01]],
+                     "threads": [[["sleep", 1.0], sub("f3")], [["sleep", 1.0], ["run", "ex", 0]]],
+                     "settle": 1, "final": [["runall", "ex"], ["sleep", 0.5], ["runall", "ex"], ["sleep", 0.5], ["runall", "ex"], ["sleep", 0.5]]}}
+    # two blocking submitters at the instant the queue drains
+    out["T4b/two-blocking-submitters"] = {
+        "count": 2, "block": True,
+        "prog": {"setup": [build(man, 2, True), sub("f0"), sub("f1"), ["sleep", 0.01], sub("f2"), sub("f3"), ["sleep", 0.01]],
+                 "threads": [[["sleep", 1.0], sub("f4")], [["sleep", 1.0], ["run", "ex", 0], ["run", "ex", 1], ["sleep", 1.0], ["runall", "ex"], ["sleep", 1.0], ["runall", "ex"]],
+                             [["sleep", 1.0], sub("f5")]],
+                 "settle": 3, "final": [["runall", "ex"], ["sleep", 0.5], ["runall", "ex"], ["sleep", 0.5]]}}
     out["T1/idle"] = {
         "count": 2,
         "prog": {"setup": [build(man, 2, False), ["sleep", 5.0]],
